@@ -146,6 +146,11 @@ class ClassInfo:
                 # keep the last definition that is not an @overload
                 if any(isinstance(d, ast.Name) and d.id == "overload" for d in st.decorator_list):
                     continue
+                if any(isinstance(d, ast.Attribute) and d.attr in ("setter", "deleter") for d in st.decorator_list):
+                    # @x.setter / @x.deleter keep the property x (its getter is what reading the attribute runs)
+                    self.setters = getattr(self, "setters", {})
+                    self.setters[st.name] = st
+                    continue
                 self.methods[st.name] = st
             elif isinstance(st, ast.Assign):
                 for t in st.targets:
